@@ -87,10 +87,11 @@ TradeLiveByOrders(s, t) == \E o \in PlacedOrdersOf(s, t) : ~s.ord[o].cplt
 TradesOfKey(s, k) == {t \in DOMAIN s.trd : s.trd[t].rck = k /\ ~s.trd[t].pend}
 
 \* live trades charged = placed trades that still have an incomplete order
-LiveTradesWrong(s) ==     \* set of <<runner-context key, trade>> charged wrongly
+LiveTradesWrong(s) ==     \* set of <<runner-context key, trade, direction>> charged wrongly
     UNION {LET charged == {t \in SeqToSet(s.rc[k].live) : ~s.trd[t].pend}
                actual == {t \in TradesOfKey(s, k) : t \in SeqToSet(s.rc[k].trades) /\ TradeLiveByOrders(s, t)}
-           IN {<<k, t>> : t \in (charged \ actual) \cup (actual \ charged)} : k \in DOMAIN s.rc}
+           IN {<<k, t, "stale">> : t \in charged \ actual}          \* charged although nothing of it is live
+              \cup {<<k, t, "missing">> : t \in actual \ charged} : k \in DOMAIN s.rc}
 \* no duplicates in the accounting lists
 NoDupSeq(q) == Cardinality(SeqToSet(q)) = Len(q)
 RcListsClean(s) == \A k \in DOMAIN s.rc : NoDupSeq(s.rc[k].trades) /\ NoDupSeq(s.rc[k].live)
